@@ -83,26 +83,6 @@ theorem fresh_queue_per_block : decodeBody.head? = some "dec.q = make([]osm.Obje
 theorem delta_roundtrip (l : List Int) : undelta (delta l) = l ∧ delta (undelta l) = l :=
   ⟨undelta_delta l, delta_undelta l⟩
 
-theorem mapM_mem {α β} (f : α → Option β) (l : List α) (r : List β) (h : l.mapM f = some r) :
-    ∀ y ∈ r, ∃ x ∈ l, f x = some y := by
-  induction l generalizing r with
-  | nil => simp [List.mapM_nil] at h; subst h; intro y hy; cases hy
-  | cons a rest ih =>
-    rw [List.mapM_cons] at h
-    cases ha : f a with
-    | none => simp [ha] at h
-    | some b =>
-      cases hr : rest.mapM f with
-      | none => simp [ha, hr] at h
-      | some rs =>
-        simp [ha, hr] at h
-        subst h
-        intro y hy
-        rcases List.mem_cons.mp hy with e | e
-        · exact ⟨a, by simp, by rw [ha, e]⟩
-        · obtain ⟨x, hx, hfx⟩ := ih rs hr y e
-          exact ⟨x, by simp [hx], hfx⟩
-
 theorem dense_no_info_defaults (gran dg la lo : Int) (st : List String) (d : Dense) (ns : List Node)
     (hi : d.hasInfo = false) (h : decodeDense gran dg la lo st d = some ns) : ∀ n ∈ ns, n.md = {} := by
   unfold decodeDense at h
